@@ -139,6 +139,12 @@ def run(ck, ix, tier):
         inner = [t for t in strict[0].body if isinstance(t, ast.If)]
         ok = bool(inner) and "isinstance(values[ndx], str)" in norm(inner[0].test) and "ureg.parse_expression(values[ndx])" in norm(inner[0]) and any(isinstance(r, ast.Raise) for r in ast.walk(ast.Module(body=inner[0].orelse, type_ignores=[])))
         ck.check(ok, "G-DOM", "_converter|strict-strings-parsed-others-raise", c.loc(strict[0]), "strings are parsed, anything else raises", "in strict mode strings are no longer parsed / other values no longer raise")
+        st = [n.id for n in cfgc.nodes if n.kind == "test" and norm(n.ast) == "isinstance(values[ndx], str)"]
+        loop_heads = [n.id for n in cfgc.nodes if n.kind == "for"]
+        for t in st:
+            p = edge_leads_only_to_raise(cfgc, t, "f", also_forbid=loop_heads)
+            ck.check(p is None, "G-DOM", "_converter|strict-non-quantity-non-string-raises", c.loc(cfgc.nodes[t].ast), "strict mode: a value that is neither Quantity nor str raises ValueError",
+                     "in strict mode a bare number reaches the wrapped function unconverted", witness(cfgc, p))
     # packing by signature order
     packs = sorted([l for l in walk_local(c.node) if isinstance(l, ast.For) and norm(l.iter) == "enumerate(sig.parameters)"], key=lambda l: l.lineno)
     ok = len(packs) == 2 and "values.append(kw[param_name])" in norm(packs[0]) and "kw[param_name] = values[i]" in norm(packs[1]) and all("if i >= len_initial_values" in norm(l) for l in packs)
